@@ -36,6 +36,11 @@ impl VShimU16ToU8 for u16 { open spec fn v(self) -> int { self as int }
 pub trait VShimUsizeToU16 { spec fn v(self) -> int; fn vshim_try_into_unwrap(self) -> (r: u16) requires self.v() <= 65535, ensures r as int == self.v(); }
 impl VShimUsizeToU16 for usize { open spec fn v(self) -> int { self as int }
     #[verifier::external_body] fn vshim_try_into_unwrap(self) -> (r: u16) { self.try_into().unwrap() } }
+/// A2: a live slice is at most isize::MAX bytes long (Rust language guarantee for every allocation)
+#[verifier::external_body]
+pub proof fn axiom_box_len(b: &Box<[u8]>) ensures b@.len() <= isize::MAX {}
+#[verifier::external_body]
+pub proof fn axiom_slice_len(b: &[u8]) ensures b@.len() <= isize::MAX {}
 pub trait VShimIntoVec { spec fn sv(&self) -> Seq<u8>; fn vshim_into_vec(&self) -> (r: Vec<u8>) ensures r@ == self.sv(); }
 impl VShimIntoVec for [u8] { open spec fn sv(&self) -> Seq<u8> { self@ }
     #[verifier::external_body] fn vshim_into_vec(&self) -> (r: Vec<u8>) { self.into() } }
